@@ -4,7 +4,11 @@
    longer than announced, date headers across the two-digit-year window, malformed headers, records before A).
    Family "tracks": every non-decreasing track of up to MaxLen fixes over palettes of positions (incl. the
    poles and the antimeridian), altitudes (incl. out of range) and instants straddling midnight, leap days,
-   1999/2000 and both ends of 1970..2069.  Design invariants: the decoder model never indexes outside a line;
+   1999/2000 and both ends of 1970..2069.
+   Family "rolls": after an A record, every sequence of date headers (31 Dec 1999, 1 Jan 2000, 28 Feb 2024) and plain B records
+   at 23:59:59 / 00:00:10 / 00:00:05: several day roll-overs in one file, across year, century and leap-day ends, date headers
+   after a roll-over, fixes before any date.  (Emitted as bare line sequences; IGCObs evaluates the decoder model on them.)
+   Design invariants: the decoder model never indexes outside a line;
    the decoder model applied to the format the encoder must write gives every fix back with its instant. *)
 EXTENDS IGC, Json
 CONSTANTS Family, MaxLen, Rich
@@ -33,6 +37,9 @@ Lines == { [k |-> "A"], [k |-> "X"], [k |-> "blank"],
                               [k |-> "I", n |-> 1, ents |-> <<<<36, 99, "TDS">>>>],
                               [k |-> "HDTE", dd |-> 29, mm |-> 2, yy |-> 0, short |-> FALSE],
                               [k |-> "B", len |-> 99, sec |-> 0, ok |-> TRUE] } ELSE {})
+RollLines == { [k |-> "HDTE", dd |-> 31, mm |-> 12, yy |-> 99, short |-> FALSE], [k |-> "HDTE", dd |-> 1, mm |-> 1, yy |-> 0, short |-> FALSE],
+               [k |-> "HDTE", dd |-> 28, mm |-> 2, yy |-> 24, short |-> FALSE],
+               [k |-> "B", len |-> 35, sec |-> 86399, ok |-> TRUE], [k |-> "B", len |-> 35, sec |-> 10, ok |-> TRUE], [k |-> "B", len |-> 35, sec |-> 5, ok |-> TRUE] }
 D(y, m, d) == DaysFromCivil(y, m, d)
 Instants == { <<D(1970, 1, 1), 0>>, <<D(1985, 6, 15), 43200>>, <<D(1999, 12, 31), 86399>>, <<D(2000, 1, 1), 0>>,
               <<D(2024, 2, 28), 86399>>, <<D(2024, 2, 29), 1>>, <<D(2069, 12, 31), 86399>> }
@@ -45,10 +52,11 @@ Alts == IF Rich THEN <<0, 1, 500, 9999, 10000, 10001, -5, 12345>> ELSE <<0, 500,
 FixOf(t, j) == [lonq |-> Positions[(j % 6) + 1][1], latq |-> Positions[(j % 6) + 1][2], alt |-> Alts[(j % Len(Alts)) + 1], t |-> t]
 
 VARIABLES s, hist, track
-Init == /\ s = S0 /\ hist = <<>> /\ track = <<>>
+Init == /\ track = <<>>
+        /\ IF Family = "rolls" THEN s = Step(S0, [k |-> "A"]) /\ hist = <<[k |-> "A"]>> ELSE s = S0 /\ hist = <<>>
 Next == /\ Len(hist) < MaxLen
-        /\ IF Family = "lines"
-           THEN \E l \in Lines : s' = Step(s, l) /\ hist' = Append(hist, l) /\ track' = track
+        /\ IF Family \in {"lines", "rolls"}
+           THEN \E l \in (IF Family = "lines" THEN Lines ELSE RollLines) : s' = Step(s, l) /\ hist' = Append(hist, l) /\ track' = track
            ELSE \E t \in Instants, j \in 0..5 :
                   /\ (IF track = <<>> THEN TRUE ELSE ~Before(t, track[Len(track)].t))
                   /\ track' = Append(track, FixOf(t, j + Len(track)))
@@ -63,5 +71,6 @@ FormatRoundTrips ==
     /\ \A i \in DOMAIN track : r.fixes[i] = <<track[i].t[1], track[i].t[2], 1>>
 Emit == PrintT(<<"CASE", ToJson(IF Family = "lines"
            THEN [fam |-> "lines", lines |-> hist', nfix |-> Len(s'.fixes), nerr |-> TotalErrors(s'), fixes |-> s'.fixes, dated |-> s'.dated]
+           ELSE IF Family = "rolls" THEN [fam |-> "glines", lines |-> hist']
            ELSE [fam |-> "tracks", track |-> track'])>>)
 ====
